@@ -77,6 +77,7 @@ impl Display for StatementVer {
 }
 
 #[derive(Debug, Serialize, PartialEq, Eq)]
+#[serde(untagged)]
 pub enum StatementWrapper {
     Naive(StateNaive),
     V0_1(StateV01),
